@@ -20,6 +20,7 @@ func treeSpaces(r *explore.Run, gramBase int, body func(c *explore.Ctx, e *Entry
 	corpusSpace(r, wrap)
 	grammarTreeSpace(r, gramBase, wrap)
 	editSpace(r, 1, wrap)
+	corpusEditSpace(r, wrap)
 }
 
 func outcomeTree(c *explore.Ctx, e *Entry, s string, res ParseResult) {
